@@ -557,6 +557,57 @@ func (r *EngineRunner) Exec(f []string) (res string) {
 			note += " close-ok"
 		}
 		return "ok # " + note
+	case "putfail":
+		// E putfail <key> <val>: a Put whose write the operating system refuses (the descriptor of the active file is
+		// replaced by a read-only one for the duration of the call).  The call must report the error and leave the
+		// database as it was: the history goes on, and everything acknowledged later must survive restarts.
+		// Only with standard I/O and when the record fits the active file (no rotation before the write).
+		k, _ := ParseTok(f[2])
+		v, _ := ParseTok(f[3])
+		if r.db == nil || r.opts.FileIOType != fio.StandardFIO || len(k) == 0 ||
+			r.db.VerifActiveSize()+int64(datafile.GetLogRecordDiskSize(len(k), len(v))) > r.opts.DataFileSize {
+			return "skip"
+		}
+		aid, _ := r.db.VerifFileIDs()
+		target := datafile.GetFileName(r.dir(), aid, datafile.DataFileSuffix)
+		victim := -1
+		if ents, err := os.ReadDir("/proc/self/fd"); err == nil {
+			for _, e := range ents {
+				if t, err := os.Readlink("/proc/self/fd/" + e.Name()); err == nil && t == target {
+					victim = atoi(e.Name())
+				}
+			}
+		}
+		if victim < 0 {
+			return "skip"
+		}
+		saved, err := syscall.Dup(victim)
+		if err != nil {
+			return "skip"
+		}
+		ro, err := os.Open(os.DevNull)
+		if err != nil {
+			_ = syscall.Close(saved)
+			return "skip"
+		}
+		if err := syscall.Dup3(int(ro.Fd()), victim, 0); err != nil {
+			_ = ro.Close()
+			_ = syscall.Close(saved)
+			return "skip"
+		}
+		h1, h2 := fio.VerifEvent, kv.VerifFsEvent
+		fio.VerifEvent, kv.VerifFsEvent = nil, nil
+		perr := r.db.Put(r.hk(k), r.hv(v))
+		fio.VerifEvent, kv.VerifFsEvent = h1, h2
+		_ = syscall.Dup3(saved, victim, 0)
+		_ = syscall.Close(saved)
+		_ = ro.Close()
+		r.scribble()
+		if perr == nil {
+			r.fail("C01", "a Put whose write was refused by the operating system reported success")
+			return "ok"
+		}
+		return "err io"
 	case "put":
 		k, _ := ParseTok(f[2])
 		v, _ := ParseTok(f[3])
